@@ -99,6 +99,9 @@ func (m *TapeManager) openOrReuseReader() error {
 	m.readerLock.Lock()
 	defer m.readerLock.Unlock()
 
+	// Wait until the drive is free; a reader that is still open at this point belongs to another operation that is still running
+	m.physicalLock.Lock()
+
 	reopen := false
 	if m.reader == nil {
 		reopen = true
@@ -108,8 +111,6 @@ func (m *TapeManager) openOrReuseReader() error {
 	}
 
 	if reopen {
-		m.physicalLock.Lock()
-
 		r, rr, err := OpenTapeReadOnly(m.drive)
 		if err != nil {
 			// Release the drive again, otherwise every following operation would block forever
